@@ -9,16 +9,18 @@
 (***************************************************************************)
 EXTENDS Naturals, Integers, Sequences, FiniteSets, TLC, Json
 CONSTANTS Paths, Strats, HdrModes, NSet, MSet, BoolSet, PlaceSet, FootSet, HFSet, PaperSet, NrowSet, ShapeSet, SizeSet, KindSet, ContigSet,
+          KeyTypeSet, SeqSet,      \* type of the grouping-column values (str/int/date/null) and spelling of page_by etc. (list/tuple/str)
           HeaderOffOk, HalfPointOk
 VARIABLES cfg, d, phase, skel, outcome
 vars == <<cfg, d, phase, skel, outcome>>
 Cfg0 == [path |-> "single", strat |-> "plain", hdr |-> "default", n |-> 1, m |-> 1, title |-> FALSE, subline |-> FALSE, foot |-> "none",
          src |-> "none", pghdr |-> FALSE, pgftr |-> FALSE, ptitle |-> "all", pfoot |-> "last", psrc |-> "last", paper |-> "letter",
-         nrow |-> 40, shape |-> "scalar", size |-> "int", kind |-> "str", contig |-> TRUE, colour |-> FALSE, nsec |-> 1]
+         nrow |-> 40, shape |-> "scalar", size |-> "int", kind |-> "str", contig |-> TRUE, colour |-> FALSE, nsec |-> 1, keytype |-> "str", seq |-> "list"]
 Dims == << <<"path", Paths>>, <<"strat", Strats>>, <<"hdr", HdrModes>>, <<"n", NSet>>, <<"m", MSet>>, <<"title", BoolSet>>,
            <<"subline", BoolSet>>, <<"foot", FootSet>>, <<"src", FootSet>>, <<"pghdr", HFSet>>,
            <<"pgftr", HFSet>>, <<"ptitle", PlaceSet>>, <<"pfoot", PlaceSet>>, <<"psrc", PlaceSet>>, <<"paper", PaperSet>>, <<"nrow", NrowSet>>,
-           <<"shape", ShapeSet>>, <<"size", SizeSet>>, <<"kind", KindSet>>, <<"contig", ContigSet>>, <<"colour", BoolSet>>, <<"nsec", {2, 3}>> >>
+           <<"shape", ShapeSet>>, <<"size", SizeSet>>, <<"kind", KindSet>>, <<"contig", ContigSet>>, <<"colour", BoolSet>>, <<"nsec", {2, 3}>>,
+           <<"keytype", KeyTypeSet>>, <<"seq", SeqSet>> >>
 \* dependent restrictions (configurations the constructors accept)
 Dom(k, c) == LET f == Dims[k][1]  S == Dims[k][2] IN
   CASE f = "strat" -> IF c.path = "figure" THEN {"plain"} ELSE S
@@ -27,6 +29,8 @@ Dom(k, c) == LET f == Dims[k][1]  S == Dims[k][2] IN
     [] f = "src" -> IF c.path = "figure" THEN S \ {"table"} ELSE S
     [] f = "contig" -> IF c.strat = "groupby" /\ c.n >= 3 THEN S ELSE {TRUE}
     [] f = "nsec" -> IF c.path = "multi" THEN S ELSE {1}
+    [] f = "keytype" -> IF c.strat = "plain" \/ c.path = "figure" THEN {"str"} ELSE S
+    [] f = "seq" -> IF c.strat = "plain" \/ c.path = "figure" THEN {"list"} ELSE S
     [] OTHER -> S
 Init == cfg = Cfg0 /\ d = 1 /\ phase = "pick" /\ skel = <<>> /\ outcome = "none"
 Pick == /\ phase = "pick" /\ d <= Len(Dims)
